@@ -104,6 +104,27 @@ impl<'a> Injector<'a> {
         let kind = rng.below(7);
         let n = self.fresh();
         let g = self.g;
+        // a PROJECT without any MODULE (the library requires at least one): only as the first fault,
+        // so that no other injected fault disappears together with its module
+        if self.faults.is_empty() && rng.chance(1, 12) {
+            if let Some(project) = doc.top.iter_mut().find(|e| e.tag == "PROJECT" && e.marker == 0) {
+                let before = project.children.len();
+                project.children.retain(|c| !matches!(c, Child::Elem(k) if k.tag == "MODULE"));
+                if project.children.len() < before {
+                    self.next_marker += 1;
+                    project.marker = self.next_marker;
+                    self.faults.push(Fault {
+                        class: "InvalidMultiplicityNotPresent",
+                        sentinel: String::new(),
+                        marker: self.next_marker,
+                        deprecation: false,
+                        lo: 0,
+                        hi: 0,
+                    });
+                    return true;
+                }
+            }
+        }
         let cand: Vec<usize> = {
             let mut elems: Vec<&Elem> = Vec::new();
             for e in &doc.top {
@@ -485,7 +506,12 @@ pub fn run(args: &Args, rec: &mut Recorder) {
         cfg.opt_pct = rng.urange(15, 60) as u32;
         let with_ifdata = variant == 7;
         cfg.if_data = with_ifdata;
-        cfg.a2ml = with_ifdata;
+        // A2ML blocks alone are inside the IF_DATA-free clauses: the block is raw text that spans
+        // several lines, and every diagnostic behind it must still carry the right line
+        cfg.a2ml = with_ifdata || rng.chance(1, 3);
+        if cfg.a2ml {
+            rec.bump("input.doc.with_a2ml_block");
+        }
         cfg.comments_pct = *rng.pick(&[0u32, 5]);
         let mut gen = DocGen::new(&g, cfg);
         let mut doc = gen.gen_doc(rng);
@@ -668,6 +694,7 @@ pub fn run(args: &Args, rec: &mut Recorder) {
         "injected.InvalidIdentifier",
         "injected.UnexpectedTokenType",
         "injected.IncorrectEndTag",
+        "injected.InvalidMultiplicityNotPresent",
         "injected.BlockRefTooNew",
         "injected.BlockRefDeprecated",
         "injected.EnumRefTooNew",
